@@ -100,6 +100,20 @@ Theorem C19_spinham_mpo_denotes_hamiltonian :
 Proof. exact mpo_denotes_hamiltonian. Qed.
 Print Assumptions C19_spinham_mpo_denotes_hamiltonian.
 
+(* cyclic=True: the first tensor is HL = tensor_L_cyclic(H), the others the full array, and the value is the
+   trace over the bond that leaves the last site and re-enters the first.  When the periodic bond carries the
+   default terms (no bond-specific entry under the key (L-1, L)), the trace is the open-chain Hamiltonian plus,
+   for every default term (f, A, B),  B e^(L-2) (f A):  A on site L-1 and B on site 0. *)
+Theorem C19_spinham_mpo_cyclic_denotes_hamiltonian :
+  forall (R : Type) (r0 r1 : R) (radd rmul : R -> R -> R), semiring R r0 r1 radd rmul ->
+  forall (e : R) (one : list (R * R)) (two : list (R * R * R))
+         (var1 : list (nat * list (R * R))) (var2 : list (nat * list (R * R * R))) (L : nat),
+  (2 <= L)%nat -> bond_terms R R two var2 (L - 1) = two ->
+  mpo_value_cyclic R r0 radd rmul e one two var1 var2 L
+  = Some (ham_ref_cyclic R r0 r1 radd rmul e one two var1 var2 L).
+Proof. exact mpo_cyclic_denotes_hamiltonian. Qed.
+Print Assumptions C19_spinham_mpo_cyclic_denotes_hamiltonian.
+
 (* which = 'L' / 'R': the left end is the last row and does not depend on the terms of a bond
    to its left, the right end is the first column and does not depend on a bond to its right;
    the array is (|left| + 2) x (|two| + 2) *)
@@ -124,8 +138,10 @@ Example C19_spinham_example :
      mpo_value M2 m2_0 m2_add m2_mul e [] [(m2_1, A, B)] [] [] 3
        = Some (m2_add (m2_mul (m2_mul A B) e) (m2_mul e (m2_mul A B)))
      /\ m2_add (m2_mul (m2_mul A B) e) (m2_mul e (m2_mul A B))
-        <> m2_add (m2_mul (m2_mul B A) e) (m2_mul e (m2_mul B A)).
-Proof. split; [exact m2_semiring | vm_compute; split; [reflexivity | discriminate]]. Qed.
+        <> m2_add (m2_mul (m2_mul B A) e) (m2_mul e (m2_mul B A))
+     /\ mpo_value_cyclic M2 m2_0 m2_add m2_mul e [] [(m2_1, A, B)] [] [] 3
+       = Some (m2_add (m2_add (m2_mul (m2_mul A B) e) (m2_mul e (m2_mul A B))) (m2_mul B (m2_mul e A))).
+Proof. split; [exact m2_semiring | vm_compute; repeat split; try reflexivity; discriminate]. Qed.
 
 Example C19_examples :
   rank_u1 [1;0;1;0] 2 = 4 /\ unrank_u1 4 4 2 = [1;0;1;0] /\ binom 4 2 = 6
